@@ -153,4 +153,61 @@ example : fpVec [1, 2, 3] ≠ fpVec [2, 1, 3] := by decide +kernel
 example : ¬ (Gen.FP_P : Int) ∣ (7 : Int) - 3 := by decide +kernel
 example : fpTab [[1, 2], [3, 4]] ≠ fpTab [[1, 2], [3, 5]] := by decide +kernel
 
+/-! #### container-valued elements (sets, tuples, lists of scalars or of further containers) -/
+
+private theorem P_pos' : (0 : Int) < FP.P := by have := P_pos; unfold FP.P; omega
+
+/-- the starting accumulators read off the current source are residues modulo P … -/
+theorem seeds_are_residues :
+    Gen.fpSeeds.all (fun e => decide (0 ≤ e.2) && decide (e.2 < FP.P)) = true := by decide +kernel
+
+/-- … nonzero and pairwise different for the 21 (kind, length) pairs tabulated (kinds set / tuple / list, lengths 0–6):
+    `()`, `[]`, `set()`, and containers of the same items but another kind or length class start differently -/
+theorem seeds_distinct : (Gen.fpSeeds.map (·.2)).Nodup ∧ Gen.fpSeeds.all (fun e => decide (e.2 ≠ 0)) = true := by
+  decide +kernel
+
+theorem seed_range (k n : Nat) : 0 ≤ seedOf k n ∧ seedOf k n < FP.P := seedOf_range P_pos' seeds_are_residues k n
+
+/-- `_hash_element` of a set / tuple / list is the rolling hash over the items' hashes (a set: its sorted items), started from the
+    accumulator of its kind and length -/
+theorem container_hash (k : Nat) (es : List Elem) :
+    (Elem.seq k es).hash = ev FP.P FP.B (seedOf k es.length) (es.map Elem.hash) := Elem.hash_seq k es
+
+/-- **a change anywhere inside a container-valued element shows in the vector's fingerprint**: replacing the scalar at any
+    nesting depth (`path`) of element `i` by one whose hash is not congruent changes the fingerprint -/
+theorem container_write_changes (es : List Elem) (i : Nat) (path : List Nat) (x y : Int) (hi : i < es.length)
+    (hx : es[i].leafAt path = some x) (hne : ¬ (Gen.FP_P : Int) ∣ y - x) :
+    fpElems (es.set i (es[i].setAt path y)) ≠ fpElems es := by
+  unfold fpElems
+  rw [List.map_set]
+  have hi' : i < (es.map Elem.hash).length := by simpa using hi
+  apply write_changes (es.map Elem.hash) i _ hi'
+  simp only [List.getElem_map]
+  exact Elem.setAt_changes coprime_B_P P_pos' seed_range es[i] path x y hx hne
+
+/-- **the kind of a container matters**: the same items as a set, a tuple and a list are hashed differently (lengths 0–6) -/
+theorem container_kind_matters (es : List Elem) (hlen : es.length ≤ 6) :
+    (Elem.seq 1 es).hash ≠ (Elem.seq 2 es).hash ∧ (Elem.seq 2 es).hash ≠ (Elem.seq 3 es).hash
+      ∧ (Elem.seq 1 es).hash ≠ (Elem.seq 3 es).hash := by
+  have key : ∀ n, n ≤ 6 → seedOf 1 n ≠ seedOf 2 n ∧ seedOf 2 n ≠ seedOf 3 n ∧ seedOf 1 n ≠ seedOf 3 n := by
+    intro n hn
+    have : n = 0 ∨ n = 1 ∨ n = 2 ∨ n = 3 ∨ n = 4 ∨ n = 5 ∨ n = 6 := by omega
+    rcases this with h | h | h | h | h | h | h <;> subst h <;> decide +kernel
+  obtain ⟨h12, h23, h13⟩ := key es.length hlen
+  exact ⟨Elem.kind_ne coprime_B_P P_pos' seed_range 1 2 es h12, Elem.kind_ne coprime_B_P P_pos' seed_range 2 3 es h23,
+         Elem.kind_ne coprime_B_P P_pos' seed_range 1 3 es h13⟩
+
+/-- **a value and the one-item container holding it are told apart** — `x` against `{x}`, `(x,)`, `[x]` (the collision the
+    unseeded hash had) -/
+theorem wrapped_value_differs (k : Nat) (hk : k = 1 ∨ k = 2 ∨ k = 3) (e : Elem) :
+    ¬ (Gen.FP_P : Int) ∣ (Elem.seq k [e]).hash - e.hash := by
+  have h0 : seedOf k 1 ≠ 0 := by rcases hk with h | h | h <;> subst h <;> decide +kernel
+  exact Elem.wrap_ne coprime_B_P P_pos' seed_range k e h0
+
+/-- non-vacuity: a vector `[5, (1, [2, 3])]`, the innermost 2 replaced by 7 -/
+example : ([Elem.leaf 5, .seq 2 [.leaf 1, .seq 3 [.leaf 2, .leaf 3]]] : List Elem)[1].leafAt [1, 0] = some 2
+    ∧ ¬ (Gen.FP_P : Int) ∣ 7 - 2 := by
+  refine ⟨rfl, ?_⟩
+  decide +kernel
+
 end Serif.C16
